@@ -13,9 +13,11 @@ package main
 import (
 	"bytes"
 	"encoding/json"
+	"errors"
 	"fmt"
 	stdhtml "html"
 	"html/template"
+	"io"
 	"os"
 	"strings"
 	"unicode/utf8"
@@ -35,6 +37,16 @@ type c06Render struct {
 	Caption []byte  `json:"caption"`
 	Gen     *c06Gen `json:"gen"` // nil = SetRowClassGenerator not called (or called with nil)
 	Q       string  `json:"q,omitempty"`
+	// Fault: this render is made to FAIL and is not judged: "writer" = RenderTo
+	// into a writer whose call number At fails; "short" = that call accepts half
+	// of the bytes (io.ErrShortWrite); "gen-panic" = the generator panics on
+	// its call number At.  The next render of the same wrapper is judged.
+	Fault *c06Fault `json:"fault,omitempty"`
+}
+
+type c06Fault struct {
+	Kind string `json:"kind"`
+	At   int    `json:"at"`
 }
 
 type c06Dec struct {
@@ -54,6 +66,9 @@ type c06Spec struct {
 	// second table that already holds Pad rows (separators and one-cell rows
 	// alternating); the remaining renders of the first table follow.
 	Share *c06Share `json:"share,omitempty"`
+	// ZeroRows: after the first judged render this many zero-value rows
+	// (new(tabular.Row) / &tabular.Row{}) are appended with AddRow
+	ZeroRows int `json:"zero_rows,omitempty"`
 }
 
 type c06Share struct {
@@ -156,6 +171,14 @@ func c06Renders(r *RNG, nul bool) []c06Render {
 	if r.Pct(20) { // identical second render: pure cache path
 		out[1] = out[0]
 	}
+	if r.Pct(20) { // a render that fails, between two judged ones
+		f := c06RandRender(r, nul)
+		f.Fault = &c06Fault{Kind: pick(r, []string{"writer", "short", "gen-panic"}), At: r.Intn(4)}
+		if f.Fault.Kind == "gen-panic" && f.Gen == nil {
+			f.Gen = &c06Gen{Vals: [][]byte{[]byte("g")}}
+		}
+		out = append([]c06Render{out[0], f}, out[1:]...)
+	}
 	return out
 }
 
@@ -196,6 +219,9 @@ func c06Enrich(r *RNG, s *c06Spec, nul bool) {
 	}
 	if len(ts.Rows) > 0 && len(ts.Stages) == 0 && r.Pct(20) {
 		ts.Stages = []int{r.Intn(len(ts.Rows))}
+	}
+	if r.Pct(5) {
+		s.ZeroRows = 1 + r.Intn(2)
 	}
 	if len(ts.Rows) > 0 && r.Pct(15) {
 		sh := &c06Share{Pad: r.Intn(5)}
@@ -289,6 +315,76 @@ func c06Gen_(r *RNG, tier string) []json.RawMessage {
 				ts.Rows[j].How = 1
 				add(c06Spec{Table: ts, Renders: genOn(), Share: &c06Share{Rows: []int{j}, Pad: pad}})
 			}
+		}
+	}
+
+	// (a4) a cell's text changed in place between two renders of the one
+	// wrapper (the item is mutated and the cell Update()d through CellAt /
+	// Headers; the row keeps its cell count): every cell position of small
+	// tables, body and header, with and without a generator
+	obj := func(txt string) ItemSpec { return ItemSpec{K: "obj", Mask: 1, S: []byte(txt)} }
+	for n := 1; n <= 3; n++ {
+		for j := 0; j < n; j++ {
+			for col := 0; col < 2; col++ {
+				hs := []ItemSpec{obj("h<1>"), obj("h2")}
+				ts := TableSpec{Header: &hs}
+				for i := 0; i < n; i++ {
+					ts.Rows = append(ts.Rows, RowSpec{How: (i + j + col) % 4, Cells: []ItemSpec{obj(fmt.Sprintf("a%d", i)), obj("b&" + c06Str(r, false))}})
+				}
+				if n == 3 {
+					ts.Rows[(j+1)%3] = RowSpec{Sep: true}
+					if ts.Rows[j].Sep {
+						continue
+					}
+				}
+				ts.Mutations = []Mutation{{Row: j, Col: col, S: []byte("<new>" + c06Str(r, false))}}
+				if (n+j+col)%3 == 0 {
+					ts.Mutations = append(ts.Mutations, Mutation{Row: -1, Col: col, S: []byte("H'new")})
+				}
+				if col == 1 {
+					ts.Stages = []int{0}
+				}
+				rs := genOn()
+				if (j+col)%2 == 1 {
+					rs[0].Gen = nil
+				}
+				add(c06Spec{Table: ts, Renders: rs})
+			}
+		}
+	}
+	// (a5) a render that FAILS (the writer errs or accepts half of the bytes
+	// on its first / a later call; the generator panics on its first / a later
+	// call) followed by successful renders of the same wrapper
+	for _, f := range []c06Fault{{"writer", 0}, {"writer", 1}, {"writer", 7}, {"short", 0}, {"short", 1}, {"short", 5},
+		{"gen-panic", 0}, {"gen-panic", 1}, {"gen-panic", 2}} {
+		for n := 0; n <= 2; n++ {
+			hs := []ItemSpec{Str("h")}
+			ts := TableSpec{Header: &hs}
+			for i := 0; i < n; i++ {
+				ts.Rows = append(ts.Rows, RowSpec{How: i % 4, Cells: []ItemSpec{c06Text(false)(r), Str("x")}})
+			}
+			ff := f
+			rs := []c06Render{
+				{Gen: &c06Gen{Vals: [][]byte{[]byte("a")}}},
+				{Caption: []byte("failing"), Gen: &c06Gen{Vals: [][]byte{[]byte("f")}}, Fault: &ff},
+				{Id: []byte("after"), Gen: &c06Gen{Vals: [][]byte{[]byte("b")}}},
+				{},
+			}
+			if n == 1 {
+				ts.Stages, ts.StageFaults = []int{0}, true
+			}
+			add(c06Spec{Table: ts, Renders: rs})
+		}
+	}
+	// (a6) zero-value rows appended between two renders
+	for n := 0; n <= 2; n++ {
+		for z := 1; z <= 2; z++ {
+			hs := []ItemSpec{Str("h")}
+			ts := TableSpec{Header: &hs}
+			for i := 0; i < n; i++ {
+				ts.Rows = append(ts.Rows, RowSpec{Sep: i == 1, Cells: []ItemSpec{Str("c")}})
+			}
+			add(c06Spec{Table: ts, Renders: genOn(), ZeroRows: z})
 		}
 	}
 
@@ -537,46 +633,134 @@ func intsEqual(a, b []int) bool {
 	return true
 }
 
-// c06Wrapper is one html wrapper and the generator bookkeeping around it
-type c06Wrapper struct {
-	ht    *html.HTMLTable
+// c06Rec: what one Render / RenderTo call of the wrapper did
+type c06Rec struct {
 	calls []int
 	rets  [][]byte
+	out   []byte // bytes returned by Render, or accepted by RenderTo's writer
+}
+
+// c06Wrapper is the ONE html wrapper of a case and the generator bookkeeping
+// around it; it is what BuildRenderW drives (Render and RenderTo), and every
+// call gets its own record.
+type c06Wrapper struct {
+	ht      *html.HTMLTable
+	cur     *c06Rec
+	hist    []*c06Rec
+	panicAt int // the generator panics on its call number panicAt (-1 never)
+}
+
+func (w *c06Wrapper) begin() {
+	w.cur = &c06Rec{}
+	w.hist = append(w.hist, w.cur)
+}
+
+func (w *c06Wrapper) Render() (string, error) {
+	w.begin()
+	s, err := w.ht.Render()
+	w.cur.out = []byte(s)
+	return s, err
+}
+
+type c06Tee struct {
+	to  io.Writer
+	rec *c06Rec
+}
+
+func (t *c06Tee) Write(p []byte) (int, error) {
+	n, err := t.to.Write(p)
+	if n > 0 && n <= len(p) {
+		t.rec.out = append(t.rec.out, p[:n]...)
+	}
+	return n, err
+}
+
+func (w *c06Wrapper) RenderTo(x io.Writer) error {
+	w.begin()
+	return w.ht.RenderTo(&c06Tee{x, w.cur})
+}
+
+// the record of the call that produced outcome o (BuildRenderW may run a
+// side render after the one it reports)
+func (w *c06Wrapper) match(o Outcome) *c06Rec {
+	if len(w.hist) == 0 {
+		return &c06Rec{}
+	}
+	if o.Kind == "ok" {
+		for k := len(w.hist) - 1; k >= 0; k-- {
+			if bytes.Equal(w.hist[k].out, o.Out) {
+				return w.hist[k]
+			}
+		}
+	}
+	return w.hist[len(w.hist)-1]
 }
 
 func (w *c06Wrapper) configure(rd c06Render) {
 	w.ht.Id, w.ht.Class, w.ht.Caption = string(rd.Id), string(rd.Class), string(rd.Caption)
+	w.panicAt = -1
+	if rd.Fault != nil && rd.Fault.Kind == "gen-panic" {
+		w.panicAt = rd.Fault.At
+	}
 	if rd.Gen == nil {
 		w.ht.SetRowClassGenerator(nil, nil)
 		return
 	}
 	vals := rd.Gen.Vals
 	w.ht.SetRowClassGenerator(func(n int, ctx interface{}) template.HTMLAttr {
+		if w.panicAt >= 0 && len(w.cur.calls) == w.panicAt {
+			panic("c06: scripted panic of the row-class generator")
+		}
 		var ret []byte
 		if len(vals) > 0 {
-			ret = vals[len(w.calls)%len(vals)]
+			ret = vals[len(w.cur.calls)%len(vals)]
 		}
-		w.calls = append(w.calls, n)
-		w.rets = append(w.rets, ret)
+		w.cur.calls = append(w.cur.calls, n)
+		w.cur.rets = append(w.cur.rets, ret)
 		return template.HTMLAttr(ret)
 	}, nil)
 }
 
-// render: the calls / return values recorded are those of this render only
-func (w *c06Wrapper) render() (string, error) {
-	w.calls, w.rets = nil, nil
-	return w.ht.Render()
+// c06FaultWriter fails (or accepts only half of the bytes) on call number at
+type c06FaultWriter struct {
+	at, calls int
+	short     bool
+}
+
+func (f *c06FaultWriter) Write(p []byte) (int, error) {
+	i := f.calls
+	f.calls++
+	if i == f.at {
+		if f.short {
+			return len(p) / 2, io.ErrShortWrite
+		}
+		return 0, errors.New("c06: scripted write failure")
+	}
+	return len(p), nil
+}
+
+// a render that is meant to FAIL (not judged; what matters is that the next
+// render of the same wrapper is unaffected by it)
+func (w *c06Wrapper) faulty(f *c06Fault) Outcome {
+	switch f.Kind {
+	case "writer":
+		return capture(func() (string, error) { return "", w.RenderTo(&c06FaultWriter{at: f.At}) })
+	case "short":
+		return capture(func() (string, error) { return "", w.RenderTo(&c06FaultWriter{at: f.At, short: true}) })
+	default: // gen-panic: configured into the generator
+		return capture(w.Render)
+	}
 }
 
 // the Coq record of one render and its human-readable description
-func c06RenderTerm(rd c06Render, o Outcome, w *c06Wrapper, crng *RNG) (term string, ro c06RenderObs) {
-	ro = c06RenderObs{Outcome: o, Calls: w.calls}
+func c06RenderTerm(rd c06Render, o Outcome, rec *c06Rec, crng *RNG) (term string, ro c06RenderObs) {
+	ro = c06RenderObs{Outcome: o, Calls: rec.calls}
 	var obsTerm string
 	var splices []string
 	switch o.Kind {
 	case "ok":
-		cs := make([]string, len(w.calls))
-		for i, c := range w.calls {
+		cs := make([]string, len(rec.calls))
+		for i, c := range rec.calls {
 			if c < 0 {
 				c = 1 << 20 // never expected; keeps the term a nat
 			}
@@ -589,8 +773,8 @@ func c06RenderTerm(rd c06Render, o Outcome, w *c06Wrapper, crng *RNG) (term stri
 	default:
 		obsTerm = "Panic"
 	}
-	rs := make([]string, len(w.rets))
-	for i, x := range w.rets {
+	rs := make([]string, len(rec.rets))
+	for i, x := range rec.rets {
 		rs[i] = cqBytes(x)
 		ro.Returns = append(ro.Returns, fmt.Sprintf("%q", x))
 	}
@@ -601,6 +785,23 @@ func c06RenderTerm(rd c06Render, o Outcome, w *c06Wrapper, crng *RNG) (term stri
 
 func c06CaseTerm(vc string, rterms []string) string {
 	return "(let v := " + vc + " in\n   let rs := [" + strings.Join(rterms, ";\n     ") + "] in\n   CRenders v rs ltac:(vm_cast_no_check (@eq_refl bool true)))"
+}
+
+func c06ViewTexts(v View) [][]byte {
+	var all [][]byte
+	if v.Header != nil {
+		for _, c := range *v.Header {
+			all = append(all, []byte(c.Text))
+		}
+	}
+	for _, r := range v.Rows {
+		if r != nil {
+			for _, c := range *r {
+				all = append(all, []byte(c.Text))
+			}
+		}
+	}
+	return all
 }
 
 func c06Run(spec json.RawMessage) CaseOut {
@@ -614,46 +815,43 @@ func c06Run(spec json.RawMessage) CaseOut {
 	if len(s.Renders) == 0 {
 		s.Renders = []c06Render{{}}
 	}
+	s.Renders[0].Fault = nil // the render at the end of the build is always a judged one
 	// What the output is judged against comes from the SPEC alone (what was
-	// put in), never read back from the table under test.
+	// put in, with the final texts of mutated items), never read back from the
+	// table under test.
 	v := s.Table.SpecView()
 	crng := NewRNG(s.CorruptSeed)
 
-	// Build through the shared staged builder: with stages the ONE wrapper is
-	// made before the first building call and renders the partial table at
-	// every stage (configuration of render 0); the first judged render is the
-	// one at the end of the build.
+	// Build through the shared builder: whenever earlier renders are part of
+	// the history (stages, mutations, faults) the ONE wrapper is made before the
+	// first building call; staged renders (some into failing writers), the
+	// render before a mutation, the final render (Render, or RenderTo into a
+	// non-buffer writer) and the single-fault side render all go through it,
+	// with the configuration of render 0.
 	t := tabular.New()
-	w := &c06Wrapper{}
-	o0 := s.Table.BuildRender(t, func(t tabular.Table) func() (string, error) {
+	w := &c06Wrapper{panicAt: -1}
+	o0 := s.Table.BuildRenderW(t, func(t tabular.Table) RenderW {
 		w.ht = html.Wrap(t)
 		w.ht.TemplateName = s.TemplateName
 		w.configure(s.Renders[0])
-		return w.render
+		return w
 	})
 
-	var rterms []string
-	var obs []c06RenderObs
+	type group struct {
+		vc     string
+		rterms []string
+	}
+	groups := []*group{{vc: v.Coq(true)}}
+	var obs []interface{}
 	tags := shapeTags(v)
-	all := [][]byte{}
-	if v.Header != nil {
-		for _, c := range *v.Header {
-			all = append(all, []byte(c.Text))
-		}
-	}
-	for _, r := range v.Rows {
-		if r != nil {
-			for _, c := range *r {
-				all = append(all, []byte(c.Text))
-			}
-		}
-	}
+	all := c06ViewTexts(v)
 	size := s.Table.Size()
 	okAll, callsOK := true, true
 	want := c06Positional(v)
-	note := func(k int, rd c06Render, o Outcome) {
-		term, ro := c06RenderTerm(rd, o, w, crng)
-		rterms = append(rterms, term)
+	note := func(k int, rd c06Render, o Outcome, rec *c06Rec) {
+		term, ro := c06RenderTerm(rd, o, rec, crng)
+		g := groups[len(groups)-1]
+		g.rterms = append(g.rterms, term)
 		obs = append(obs, ro)
 		tags = append(tags, "outcome="+o.Kind)
 		for _, kd := range ro.Corrupt {
@@ -661,10 +859,10 @@ func c06Run(spec json.RawMessage) CaseOut {
 		}
 		if o.Kind != "ok" {
 			okAll = false
-		} else if rd.Gen != nil && !intsEqual(w.calls, want) {
+		} else if rd.Gen != nil && !intsEqual(rec.calls, want) {
 			callsOK = false
 		}
-		all = append(all, w.rets...)
+		all = append(all, rec.rets...)
 		all = append(all, rd.Id, rd.Class, rd.Caption)
 		size += len(rd.Id) + len(rd.Class) + len(rd.Caption) + 1
 		if rd.Gen != nil {
@@ -698,7 +896,30 @@ func c06Run(spec json.RawMessage) CaseOut {
 			}
 		}
 	}
-	note(0, s.Renders[0], o0)
+	note(0, s.Renders[0], o0, w.match(o0))
+
+	// Zero-value rows (new(tabular.Row), &tabular.Row{}) appended after the
+	// first judged render: rows with no cells.  (DESIGN 13.10 keeps zero-value
+	// literals out of "built through the public API"; HEAD emits <tr></tr> for
+	// them and numbers them like any row, and that is what is expected here -
+	// positionally, without asking the library's IsSeparator.)
+	if s.ZeroRows > 0 && len(s.Renders) > 1 {
+		v2 := v
+		v2.Rows = append([]*[]VCell{}, v.Rows...)
+		for i := 0; i < s.ZeroRows; i++ {
+			if i%2 == 0 {
+				t.AddRow(new(tabular.Row))
+			} else {
+				t.AddRow(&tabular.Row{})
+			}
+			v2.Rows = append(v2.Rows, &[]VCell{})
+		}
+		v = v2
+		want = c06Positional(v)
+		groups = append(groups, &group{vc: v.Coq(true)})
+		tags = append(tags, "zero-value-row")
+		size += 2 * s.ZeroRows
+	}
 
 	// Between the first and the later renders some of the table's row objects
 	// are ALSO added to a second table, at other positions: whatever a *Row
@@ -720,7 +941,7 @@ func c06Run(spec json.RawMessage) CaseOut {
 		rows := t.AllRows()
 		shared := 0
 		for _, i := range s.Share.Rows {
-			if i < 0 || i >= len(rows) || i >= len(v.Rows) || v.Rows[i] == nil || rows[i].IsSeparator() {
+			if i < 0 || i >= len(rows) || i >= len(v.Rows) || v.Rows[i] == nil || rows[i] == nil {
 				continue
 			}
 			other.AddRow(rows[i])
@@ -739,15 +960,15 @@ func c06Run(spec json.RawMessage) CaseOut {
 				ov.Skip = append(ov.Skip, 0)
 			}
 			// the second table is rendered (and judged) too, through its own wrapper
-			ow := &c06Wrapper{ht: html.Wrap(other)}
+			ow := &c06Wrapper{ht: html.Wrap(other), panicAt: -1}
 			ord := c06Render{Gen: &c06Gen{Vals: [][]byte{[]byte("o")}}}
 			ow.configure(ord)
-			oo := capture(ow.render)
-			term, ro := c06RenderTerm(ord, oo, ow, crng)
+			oo := capture(ow.Render)
+			term, ro := c06RenderTerm(ord, oo, ow.match(oo), crng)
 			obs = append(obs, ro)
 			if oo.Kind != "ok" {
 				okAll = false
-			} else if !intsEqual(ow.calls, c06Positional(ov)) {
+			} else if !intsEqual(ow.match(oo).calls, c06Positional(ov)) {
 				callsOK = false
 			}
 			otherTerm = c06CaseTerm(ov.Coq(true), []string{term})
@@ -755,8 +976,19 @@ func c06Run(spec json.RawMessage) CaseOut {
 		}
 	}
 	for k := 1; k < len(s.Renders); k++ {
-		w.configure(s.Renders[k])
-		note(k, s.Renders[k], capture(w.render))
+		rd := s.Renders[k]
+		w.configure(rd)
+		if rd.Fault != nil {
+			// a render that fails: the writer errs or accepts half, or the
+			// generator panics mid-table; not judged itself
+			fo := w.faulty(rd.Fault)
+			obs = append(obs, map[string]interface{}{"faulty_render": rd.Fault, "kind": fo.Kind, "err": fo.ErrS, "panic": fo.Panic})
+			tags = append(tags, "failed-render:"+rd.Fault.Kind)
+			size += 2
+			continue
+		}
+		o := capture(w.Render)
+		note(k, rd, o, w.match(o))
 	}
 
 	for _, r := range s.Table.Rows {
@@ -770,8 +1002,23 @@ func c06Run(spec json.RawMessage) CaseOut {
 	if len(s.Table.Stages) > 0 {
 		tags = append(tags, "staged-renders")
 	}
+	if s.Table.StageFaults {
+		tags = append(tags, "staged-renders-into-failing-writer")
+	}
 	if s.Table.Header2 != nil {
 		tags = append(tags, "second-header")
+	}
+	if len(s.Table.Mutations) > 0 {
+		tags = append(tags, "cell-text-mutated-between-renders")
+	}
+	if s.Table.Scribble {
+		tags = append(tags, "caller-scribbles-allrows")
+	}
+	if s.Table.FinalVia == 1 {
+		tags = append(tags, "final-via-renderto")
+	}
+	if s.Table.FaultAt > 0 {
+		tags = append(tags, "single-write-fault-side-run")
 	}
 	cls := c06Classes(all...)
 	tags = append(tags, cls...)
@@ -785,10 +1032,18 @@ func c06Run(spec json.RawMessage) CaseOut {
 			utags = append(utags, tg)
 		}
 	}
-	vc := v.Coq(true)
-	term := c06CaseTerm(vc, rterms)
+	var terms []string
+	for _, g := range groups {
+		if len(g.rterms) > 0 {
+			terms = append(terms, c06CaseTerm(g.vc, g.rterms))
+		}
+	}
 	if otherTerm != "" {
-		term = "(CBoth " + term + "\n  " + otherTerm + ")"
+		terms = append(terms, otherTerm)
+	}
+	term := terms[0]
+	for _, x := range terms[1:] {
+		term = "(CBoth " + term + "\n  " + x + ")"
 	}
 	sig := "html-render"
 	switch {
@@ -838,6 +1093,35 @@ func c06Shrink(spec json.RawMessage) []json.RawMessage {
 		c := clone()
 		c.Table.Header2 = nil
 		emit(c)
+	}
+	if s.ZeroRows > 0 {
+		c := clone()
+		c.ZeroRows--
+		emit(c)
+	}
+	for i := range s.Table.Mutations {
+		c := clone()
+		c.Table.Mutations = append(append([]Mutation{}, s.Table.Mutations[:i]...), s.Table.Mutations[i+1:]...)
+		emit(c)
+	}
+	for _, f := range []func(*TableSpec) bool{
+		func(t *TableSpec) bool { x := t.Scribble; t.Scribble = false; return x },
+		func(t *TableSpec) bool { x := t.StageFaults; t.StageFaults = false; return x },
+		func(t *TableSpec) bool { x := t.FinalVia != 0; t.FinalVia = 0; return x },
+		func(t *TableSpec) bool { x := t.FaultAt != 0; t.FaultAt = 0; return x },
+		func(t *TableSpec) bool { x := len(t.PropOps) > 0; t.PropOps = nil; return x },
+	} {
+		c := clone()
+		if f(&c.Table) {
+			emit(c)
+		}
+	}
+	for i := range s.Renders {
+		if f := s.Renders[i].Fault; f != nil && f.At > 0 {
+			c := clone()
+			c.Renders[i].Fault.At--
+			emit(c)
+		}
 	}
 	if sh := s.Share; sh != nil {
 		c := clone()
@@ -917,7 +1201,7 @@ func init() {
 		CaseType: "c06_case",
 		CaseFn:   "C06_case",
 		ModelFn:  "C06_model",
-		Rule: "the output is judged against the view computed from the SPEC (never read back from the table under test); tables built through the public API (incl. a second AddHeaders, cells added to a row long after it was attached, a pre-built row attached twice, rows also added to a second table at another position between two renders, intermediate renders of the partial table through the one reused wrapper), wrapped once by html.Wrap and rendered 2-3 times from that wrapper with Id/Class/Caption/TemplateName and the row-class generator (absent / returning \"\" / returning hostile strings as template.HTMLAttr) changed between renders; " +
+		Rule: "the output is judged against the view computed from the SPEC (never read back from the table under test); tables built through the public API (incl. a second AddHeaders, cells added to a row long after it was attached, a pre-built row attached twice, rows also added to a second table at another position between two renders, intermediate renders of the partial table through the one reused wrapper - some into failing writers -, a cell text changed in place (item mutated, Cell.Update through CellAt/Headers, same cell count) between two renders, the final render through RenderTo into a non-buffer writer, the caller scribbling over its AllRows() copy; renders that FAIL - writer error or short write on its first / a later call, generator panicking on its first / a later call - followed by judged renders of the same wrapper; zero-value rows appended between renders, expected positionally as rows without cells), wrapped once by html.Wrap and rendered 2-3 times from that wrapper with Id/Class/Caption/TemplateName and the row-class generator (absent / returning \"\" / returning hostile strings as template.HTMLAttr) changed between renders; " +
 			"every shape with header in {none,0,1,2 cells} and up to 3 rows over {separator,0,1,2 cells}; every single byte value 0..255, every pair over 12 hostile ASCII bytes and every hostile atom, each in cell, header, caption, id, class and generator-value position; " +
 			"random tables to 5x5 with texts from a markup-hostile alphabet (< > \" ' & + = / space LF backtick, entity look-alikes, tag text, comment text, template syntax, invalid UTF-8), NUL in a separate stream judged against U+FFFD; " +
 			"each accepted output is also corrupted (dropped '>', injected tag, unescaped / truncated entity, added attribute, truncated document, stray text) and the Coq tokenizer must refuse every corruption; the Coq entity decoder is compared with html.UnescapeString / html.EscapeString / template.HTMLEscapeString; " +
